@@ -324,9 +324,11 @@ public:
      */
     Solution solveBounded(const Region<N>& region, double shrink=(1 - 1e-9))
     {
+        // An empty QEF has AtA(N, N) == 0; 0/0 would make the target value
+        // (and with it every candidate's error) NaN, so nothing is ever accepted.
         return solveBounded(region, shrink,
                             (region.lower + region.upper) / 2.0,
-                            AtBp(N, N) / AtA(N, N));
+                            (AtA(N, N) != 0.0) ? (AtBp(N, N) / AtA(N, N)) : 0.0);
     }
 
     Solution solveBounded(const Region<N>& region, double shrink,
